@@ -18,6 +18,8 @@ import time
 
 ROOT = os.path.dirname(os.path.dirname(os.path.abspath(__file__)))
 REPO = os.environ.get("VERIF_REPO", "/repo")
+# runs against a scratch copy of the repository leave /verif/evidence and /verif/replay alone
+OUTROOT = ROOT if REPO == "/repo" else os.path.join("/tmp", "verif-scratch-out")
 SPEC = os.path.join(ROOT, "spec")
 HARNESS = os.path.join(ROOT, "harness")
 JAR = "/opt/veriftools/tla/tla2tools.jar:/opt/veriftools/tla/CommunityModules-deps.jar"
@@ -73,11 +75,20 @@ def go_env(work):
 def build_harness(work, race=False):
     """go build -tags verif of the harness; the morlock module is replaced by /repo, so the
     code under test is whatever the working tree contains right now."""
-    shutil.copy(os.path.join(REPO, "go.sum"), os.path.join(HARNESS, "go.sum"))
+    src = HARNESS
+    if REPO != "/repo":
+        # checks against a scratch copy of the repository (VERIF_REPO): build from a private copy of the
+        # harness module whose replace directive points there; /repo and /verif/harness stay untouched
+        src = work.path("harness-src")
+        if not os.path.exists(src):
+            shutil.copytree(HARNESS, src)
+            gm = open(os.path.join(src, "go.mod")).read().replace("=> /repo", "=> " + REPO)
+            open(os.path.join(src, "go.mod"), "w").write(gm)
+    shutil.copy(os.path.join(REPO, "go.sum"), os.path.join(src, "go.sum"))
     out = work.path("vh-race" if race else "vh")
     cmd = ["go", "build", "-tags", "verif"] + (["-race"] if race else []) + ["-o", out, "./cmd/vh"]
     t = time.time()
-    p = subprocess.run(cmd, cwd=HARNESS, env=go_env(work), capture_output=True, text=True)
+    p = subprocess.run(cmd, cwd=src, env=go_env(work), capture_output=True, text=True)
     if p.returncode != 0:
         raise Inconclusive("harness build failed:\n" + p.stdout + p.stderr)
     log("built harness in %.1fs" % (time.time() - t))
@@ -296,7 +307,7 @@ class Report:
         self.exhaustive = False
         self.extra = {}
         self.known = load_known()
-        shutil.rmtree(os.path.join(ROOT, "replay", prop), ignore_errors=True)  # replay files of this run only
+        shutil.rmtree(os.path.join(OUTROOT, "replay", prop), ignore_errors=True)  # replay files of this run only
         self.fail_events = {}    # assertion -> number of failing events (all of them)
 
     def add_tlc(self, r):
@@ -322,7 +333,7 @@ class Report:
         if k:
             self.known_hits[k["what"]] = self.known_hits.get(k["what"], 0) + 1
             return
-        d = os.path.join(ROOT, "replay", self.prop)
+        d = os.path.join(OUTROOT, "replay", self.prop)
         os.makedirs(d, exist_ok=True)
         path = os.path.join(d, "%s-%s-seed%d-%d.json" % (assertion.replace(".", "_"), self.tier, self.seed, len(self.violations)))
         keep = None
@@ -357,8 +368,8 @@ class Report:
             "coverage": cov, "assumptions": self.assumptions,
             "wall_s": round(time.time() - self.t0, 2), "violations": len(self.violations),
         }
-        os.makedirs(os.path.join(ROOT, "evidence"), exist_ok=True)
-        with open(os.path.join(ROOT, "evidence", self.prop + ".json"), "w") as f:
+        os.makedirs(os.path.join(OUTROOT, "evidence"), exist_ok=True)
+        with open(os.path.join(OUTROOT, "evidence", self.prop + ".json"), "w") as f:
             json.dump(ev, f, indent=1)
         for what, n in sorted(self.known_hits.items()):
             print("KNOWN-FINDING: property=%s %s (%d events)" % (self.prop, what, n))
